@@ -174,6 +174,28 @@ class Machine:
                     break
                 except _Continue:
                     continue
+        elif isinstance(st, ast.AsyncFor):
+            # ``async for x in g``: anext() on the iterated generator until StopAsyncIteration (one-way: nothing the caller
+            # sends or throws at the suspended ``yield`` of the body reaches g)
+            it = yield from self.ev(st.iter)
+            if not isinstance(it, Inner):
+                raise ProtoAbort(f'async for over {it!r}')
+            while True:
+                self.tick()
+                try:
+                    v = it.op('anext')
+                except _PyExc as ex:
+                    if ex.token.split(':')[0] == 'StopAsyncIteration':
+                        yield from self.block(st.orelse)
+                        break
+                    raise
+                self.bind(st.target, v)
+                try:
+                    yield from self.block(st.body)
+                except _Break:
+                    break
+                except _Continue:
+                    continue
         elif isinstance(st, ast.Try):
             yield from self.try_(st)
         elif isinstance(st, (ast.Import, ast.ImportFrom, ast.Global, ast.Nonlocal)):
